@@ -40,9 +40,98 @@ func Preamble(m Mode) string {
 }
 
 // Query renders the SMT-LIB text that decides obligation o of r.
+// prunePreamble keeps only the theory commands the body needs: a declaration or definition is kept if its
+// symbol is (transitively) used, an axiom if it mentions a used theory symbol. The core datatypes are always kept.
+func prunePreamble(pre string, body string) string {
+	lines := strings.Split(pre, "\n")
+	tok := func(s string) []string {
+		return strings.FieldsFunc(s, func(r rune) bool {
+			return r == '(' || r == ')' || r == ' ' || r == '\t' || r == '\n'
+		})
+	}
+	defined := map[string]int{} // symbol -> line
+	for i, ln := range lines {
+		if strings.HasPrefix(ln, "(declare-fun ") || strings.HasPrefix(ln, "(define-fun ") || strings.HasPrefix(ln, "(declare-sort ") || strings.HasPrefix(ln, "(define-sort ") {
+			t := tok(ln)
+			if len(t) > 1 {
+				defined[t[1]] = i
+			}
+		}
+	}
+	used := map[string]bool{}
+	for _, t := range tok(body) {
+		if _, ok := defined[t]; ok {
+			used[t] = true
+		}
+	}
+	keep := make([]bool, len(lines))
+	changed := true
+	for changed {
+		changed = false
+		for i, ln := range lines {
+			if keep[i] || ln == "" {
+				continue
+			}
+			isDef := strings.HasPrefix(ln, "(declare-fun ") || strings.HasPrefix(ln, "(define-fun ") || strings.HasPrefix(ln, "(declare-sort ") || strings.HasPrefix(ln, "(define-sort ")
+			t := tok(ln)
+			need := false
+			if isDef {
+				need = used[t[1]]
+			} else if strings.HasPrefix(ln, "(assert") {
+				for _, x := range t {
+					if used[x] {
+						need = true
+						break
+					}
+				}
+			} else {
+				need = true // options, datatypes
+			}
+			if need {
+				keep[i] = true
+				changed = true
+				for _, x := range t {
+					if _, ok := defined[x]; ok && !used[x] {
+						used[x] = true
+					}
+				}
+			}
+		}
+	}
+	var out []string
+	for i, ln := range lines {
+		if keep[i] {
+			out = append(out, ln)
+		}
+	}
+	return strings.Join(out, "\n") + "\n"
+}
+
 func (r *FuncResult) Query(o *Obl, getModel bool) string {
+	var body strings.Builder
+	for _, d := range r.Decls {
+		body.WriteString(d)
+		body.WriteByte('\n')
+	}
+	for _, c := range r.Cmds[:o.Prefix] {
+		body.WriteString(c)
+		body.WriteByte('\n')
+	}
+	body.WriteString(o.Goal)
 	var b strings.Builder
-	b.WriteString(Preamble(r.Mode))
+	pre := Preamble(r.Mode)
+	if r.NoLemmas {
+		noLemmasMu.Lock()
+		noLemmas = true
+		pre = Preamble(r.Mode)
+		noLemmas = false
+		noLemmasMu.Unlock()
+	} else {
+		noLemmasMu.Lock()
+		pre = Preamble(r.Mode)
+		noLemmasMu.Unlock()
+	}
+	b.WriteString(prunePreamble(pre, body.String()))
 	for _, d := range r.Decls {
 		b.WriteString(d)
 		b.WriteByte('\n')
@@ -74,6 +163,8 @@ var Solvers = []Solver{
 		return []string{"cvc5", fmt.Sprintf("--tlimit=%d", t.Milliseconds()), f}
 	}},
 }
+
+var noLemmasMu sync.Mutex
 
 type solveOut struct {
 	solver string
@@ -234,4 +325,77 @@ func decide(o *Obl, file string, timeout time.Duration, stats *SolveStats) {
 			os.Remove(wf)
 		}
 	}
+}
+
+
+// Retry re-runs the obligations that were not discharged, a few at a time and with a longer budget,
+// so that a slow machine or a loaded one does not turn into an alarm.
+func Retry(rs []*FuncResult, dir string, timeout time.Duration, stats *SolveStats) int {
+	type job struct {
+		r *FuncResult
+		o *Obl
+		i int
+	}
+	var jobs []job
+	for _, r := range rs {
+		for i, o := range r.Obls {
+			if !o.Canary && o.Result != "unsat" && o.Result != "sat" && o.Result != "error" {
+				jobs = append(jobs, job{r, o, i})
+			}
+		}
+	}
+	if len(jobs) == 0 || len(jobs) > 60 {
+		return 0
+	}
+	ch := make(chan job)
+	var wg sync.WaitGroup
+	for w := 0; w < 4; w++ {
+		wg.Add(1)
+		go func(w int) {
+			defer wg.Done()
+			for j := range ch {
+				file := filepath.Join(dir, fmt.Sprintf("r%d_%s_%d.smt2", w, sanitize(shortKey(j.r.Key)), j.i))
+				q := j.r.Query(j.o, true)
+				q = strings.Replace(q, "(set-logic ALL)", "(set-logic ALL)\n(set-option :random-seed 7)", 1)
+				os.WriteFile(file, []byte(q), 0o644)
+				j.o.Result, j.o.Model = "", ""
+				decide(j.o, file, timeout, stats)
+				j.o.Retried = true
+				os.Remove(file)
+			}
+		}(w)
+	}
+	for _, j := range jobs {
+		ch <- j
+	}
+	close(ch)
+	wg.Wait()
+	return len(jobs)
+}
+
+
+// LemmaObligations returns one pseudo-function per mode holding the lemma obligations of property prop.
+func LemmaObligations(prop string) []*FuncResult {
+	var out []*FuncResult
+	for _, bv := range []bool{false, true} {
+		r := &FuncResult{Key: "theory-lemmas", Mode: Mode{BV: bv}, Pos: "engine/internal/vc/theory.go", NoLemmas: true}
+		for _, l := range Lemmas {
+			if l.BV != bv {
+				continue
+			}
+			use := prop == ""
+			for _, p := range l.Props {
+				if p == prop {
+					use = true
+				}
+			}
+			if use {
+				r.Obls = append(r.Obls, &Obl{Name: "lemma:" + l.Name, Kind: "lemma", Func: r.Key, Goal: l.SMT, Pos: r.Pos})
+			}
+		}
+		if len(r.Obls) > 0 {
+			out = append(out, r)
+		}
+	}
+	return out
 }
